@@ -92,17 +92,19 @@ def parseHexColor (w : List Char) : Option SColor :=
 def decVal (c : Char) : Option Nat :=
   if '0' ≤ c ∧ c ≤ '9' then some (c.toNat - 48) else none
 
+/-- One digit of a checked `u8` accumulation (overflow at any step is an error). -/
+def u8step (acc : Option Nat) (d : Nat) : Option Nat :=
+  acc.bind fun a => if 10 * a + d ≤ 255 then some (10 * a + d) else none
+
+def stripPlus : List Char → List Char
+  | '+' :: rest => rest
+  | w => w
+
 /-- `str::parse::<u8>()`: optional `+`, at least one ASCII digit, value ≤ 255. -/
 def parseU8 (w : List Char) : Option Nat :=
-  let ds := match w with
-    | '+' :: rest => rest
-    | _ => w
-  if ds = [] then none
-  else match ds.mapM decVal with
-    | some vs =>
-      -- checked accumulation: overflow of u8 at any step is an error
-      vs.foldl (fun acc d => acc.bind fun a => if 10 * a + d ≤ 255 then some (10 * a + d) else none)
-        (some 0)
+  if stripPlus w = [] then none
+  else match (stripPlus w).mapM decVal with
+    | some vs => vs.foldl u8step (some 0)
     | none => none
 
 /-- `syntect_color_from_ansi_number`: `#nn000000`. -/
@@ -157,14 +159,14 @@ structure DStyle where
 
 inductive Effect where
   | attr (a : Attr)
-  | omit
-  | raw
+  | omitW
+  | rawW
   | ignore
   deriving DecidableEq, Repr
 
 def decodeEffect (e : String) : Option Effect :=
-  if e = "omit" then some .omit
-  else if e = "raw" then some .raw
+  if e = "omit" then some .omitW
+  else if e = "raw" then some .rawW
   else if e = "ignore" then some .ignore
   else (Attr.ofField e).map .attr
 
@@ -200,30 +202,38 @@ def defSyntax (d : Option DStyle) : Bool := match d with | some s => s.isSyntax 
 def defOmitted (d : Option DStyle) : Bool := match d with | some s => s.isOmitted | none => false
 def defRaw (d : Option DStyle) : Bool := match d with | some s => s.isRaw | none => false
 
+/-- The arms of the if-chain that recognise a word as an attribute. -/
+def applyEffect (st : PState) : Effect → PState
+  | .attr a => { st with style := st.style.set a true }
+  | .omitW => { st with seenOmit := true, omitted := true }
+  | .rawW => { st with seenRaw := true, raw := true }
+  | .ignore => st
+
+/-- The `else if !seen_foreground … else if !seen_background … else fatal` tail of the chain:
+the word is taken as a colour. -/
+def stepColour (env : Env) (d : Option DStyle) (st : PState) (w : String) : Except Fatal PState :=
+  if !st.seenFg then
+    if w = "syntax" then .ok { st with synt := true, seenFg := true }
+    else if w = "auto" then
+      .ok { st with fgAuto := true, style := { st.style with fg := defFg d },
+                    synt := defSyntax d, seenFg := true }
+    else match parseColor env w with
+      | .ok c => .ok { st with style := { st.style with fg := c }, seenFg := true }
+      | .error e => .error e
+  else if !st.seenBg then
+    if w = "syntax" then .error .syntaxAsBackground
+    else if w = "auto" then
+      .ok { st with bgAuto := true, style := { st.style with bg := defBg d }, seenBg := true }
+    else match parseColor env w with
+      | .ok c => .ok { st with style := { st.style with bg := c }, seenBg := true }
+      | .error e => .error e
+  else .error .tooManyColors
+
 /-- One iteration of the word loop. -/
 def stepWord (env : Env) (d : Option DStyle) (st : PState) (w : String) : Except Fatal PState :=
   match effectOf w with
-  | some (.attr a) => .ok { st with style := st.style.set a true }
-  | some .omit => .ok { st with seenOmit := true, omitted := true }
-  | some .raw => .ok { st with seenRaw := true, raw := true }
-  | some .ignore => .ok st
-  | none =>
-    if !st.seenFg then
-      if w = "syntax" then .ok { st with synt := true, seenFg := true }
-      else if w = "auto" then
-        .ok { st with fgAuto := true, style := { st.style with fg := defFg d },
-                      synt := defSyntax d, seenFg := true }
-      else match parseColor env w with
-        | .ok c => .ok { st with style := { st.style with fg := c }, seenFg := true }
-        | .error e => .error e
-    else if !st.seenBg then
-      if w = "syntax" then .error .syntaxAsBackground
-      else if w = "auto" then
-        .ok { st with bgAuto := true, style := { st.style with bg := defBg d }, seenBg := true }
-      else match parseColor env w with
-        | .ok c => .ok { st with style := { st.style with bg := c }, seenBg := true }
-        | .error e => .error e
-    else .error .tooManyColors
+  | some e => .ok (applyEffect st e)
+  | none => stepColour env d st w
 
 def loop (env : Env) (d : Option DStyle) (st : PState) : List String → Except Fatal PState
   | [] => .ok st
@@ -354,17 +364,23 @@ def DStyle.field (st : DStyle) (f : String) : Bool :=
     | some a => st.ansi.get a
     | none => false
 
+/-- The attribute words `Display` pushes, in source order. -/
+def attrWordsOf (st : DStyle) : List String :=
+  displayWords.filterMap fun e => if st.field e.1 then some e.2 else none
+
+/-- The foreground word: `syntax`, the colour, or `normal`. -/
+def fgWordOf (st : DStyle) : Option String :=
+  if st.isSyntax then some "syntax"
+  else match st.ansi.fg with
+    | some c => colorWord c
+    | none => some "normal"
+
 /-- The words `Display` joins with a space. `none` = panic in `color_to_string`. -/
 def displayWordList (st : DStyle) : Option (List String) :=
   if st.isRaw then some ["raw"]
   else
-    let attrs := displayWords.filterMap fun (f, w) => if st.field f then some w else none
-    let fgw : Option String :=
-      if st.isSyntax then some "syntax"
-      else match st.ansi.fg with
-        | some c => colorWord c
-        | none => some "normal"
-    match fgw, st.ansi.bg with
+    let attrs := attrWordsOf st
+    match fgWordOf st, st.ansi.bg with
     | none, _ => none
     | some f, none => some (attrs ++ [f])
     | some f, some c =>
